@@ -13,7 +13,9 @@
  * the reference set, min/next and max/prev traversals equal the sorted
  * reference, duplicate insert fails and changes nothing.
  */
+#ifndef _GNU_SOURCE
 #define _GNU_SOURCE
+#endif
 #include <stdio.h>
 #include <stdlib.h>
 #include <string.h>
